@@ -49,6 +49,8 @@ fixed('F17', ['C07'], 'A5f', 'adsg_core.optimization.assign_enc.encoding:EagerEn
       'a connection variable not flagged conditionally active was inactive in a valid design (S0(0..2) -> [T0(0..2, conditional), T1(1)], Direct Matrix eager encoder: x=[0,0] reports CC_0 inactive, flag False): existence patterns needing no variable were skipped when merging the flags', 'witness/w17', 'flag their variables conditionally active')
 fixed('F18', ['C11', 'C01'], 'A10g', 'adsg_core.optimization.assign_enc.matrix:AggregateAssignmentMatrixGenerator._get_n_conn_override._make_n_conn_override:A10g:max(n_conns) over override_map.values()',
       'ValueError (max() of an empty list) while building the GraphProcessor of a feasible design space: grouping connector G = {M1 (1..inf), M2 ([1], conditional)} -> T; in the scenario with M2 the group needs 2 connections, the matrix allows 1, the degree list of the pattern is empty', 'witness/w18', 'is infeasible instead of crashing')
+fixed('F19', ['C10'], 'A21w', 'adsg_core.optimization.assign_enc.eager.imputation.closest:ClosestImputer.impute:A21w:raw-vector-only-cut-to-pattern-width',
+      'ClosestImputer raised ValueError (broadcast (5,4) vs (6,)) and DeltaImputer never found a valid vector (invalid matrix returned) for every vector needing imputation in an existence pattern with fewer variables than the encoder as a whole (44 of 192 vectors in witness/w19)', 'witness/w19', 'cut the vector to the number of variables')
 known('F7', ['C07', 'C03'], 'A6', 'adsg_core.optimization.assign_enc.encoding:EagerEncoder.get_matrix:A6:raw-vector-returned:return (list(vector) + extra_vector, matrix[i_mat, :, :])',
       'on a direct hit the eager encoder returns the input vector instead of the stored -1-marked one, so conditionally inactive variables are reported active (30 vectors in witness/w07)',
       'witness/w07', 'returning the stored vector changes what is_valid_vector(get_matrix(x)[0]) answers and breaks 6 existing tests; not a small repair')
